@@ -420,3 +420,136 @@ package command
 //@                          && len(fo) == len(pre(c.packetFillerOpts)) + 1 && fo[len(pre(c.packetFillerOpts))] == vo
 //@                          && (forall k int :: 0 <= k && k < len(pre(c.packetFillerOpts)) ==> fo[k] == pre(c.packetFillerOpts[k]))
 //@                          && len(mo) == 3 && mo[0] == o1 && mo[1] == o2 && mo[2] == o3 && ret == m -> exit
+
+// engine construction of the application scans: the scanner gets the configured timeouts / protocol, the engine is
+// built by newScanEngine around exactly that scanner
+//@ func (*socksCmdOpts).newSOCKSScanEngine
+//@   props C09 C08
+//@   observe newScanEngine
+//@   opaque socks5.NewScanner, socks5.WithDialTimeout, socks5.WithDataTimeout
+//@   entry row build: [call socks5.WithDialTimeout(o.timeout) as (o1) ; call socks5.WithDataTimeout(o.timeout) as (o2) ; call socks5.NewScanner(bind_os) as (sc) ; call newScanEngine(_, ctx, bind_s2) as (en)]
+//@                       when len(os) == 2 && os[0] == o1 && os[1] == o2 && isptr(s2, socks5.Scanner) && asptr(s2, socks5.Scanner) == sc && isptr(ret, scan.GenericEngine) && asptr(ret, scan.GenericEngine) == en -> exit
+//@ func (*dockerCmdOpts).newDockerScanEngine
+//@   props C10 C08
+//@   observe newScanEngine
+//@   opaque docker.NewScanner, docker.WithDataTimeout
+//@   entry row build: [call docker.WithDataTimeout(o.timeout) as (o1) ; call docker.NewScanner(o.proto, bind_os) as (sc) ; call newScanEngine(_, ctx, bind_s2) as (en)]
+//@                       when len(os) == 1 && os[0] == o1 && isptr(s2, docker.Scanner) && asptr(s2, docker.Scanner) == sc && isptr(ret, scan.GenericEngine) && asptr(ret, scan.GenericEngine) == en -> exit
+//@ func (*elasticCmdOpts).newElasticScanEngine
+//@   props C10 C08
+//@   observe newScanEngine
+//@   opaque elastic.NewScanner, elastic.WithDataTimeout
+//@   entry row build: [call elastic.WithDataTimeout(o.timeout) as (o1) ; call elastic.NewScanner(o.proto, bind_os) as (sc) ; call newScanEngine(_, ctx, bind_s2) as (en)]
+//@                       when len(os) == 1 && os[0] == o1 && isptr(s2, elastic.Scanner) && asptr(s2, elastic.Scanner) == sc && isptr(ret, scan.GenericEngine) && asptr(ret, scan.GenericEngine) == en -> exit
+
+// engine configuration: default exit delay 300 ms, then the options in order; each option sets exactly its field
+//@ func withExitDelay$1
+//@   props C16
+//@   modifies c.exitDelay
+//@   ensures c.exitDelay == exitDelay
+//@ func withLogger$1
+//@   props C16 C14
+//@   modifies c.logger
+//@   ensures c.logger == logger
+//@ func withRateCount$1
+//@   props C15
+//@   modifies c.rateCount
+//@   ensures c.rateCount == rateCount
+//@ func withRateWindow$1
+//@   props C15
+//@   modifies c.rateWindow
+//@   ensures c.rateWindow == rateWindow
+//@ func withPacketVPNmode$1
+//@   props C17 C05
+//@   modifies c.vpnMode
+//@   ensures c.vpnMode == vpnMode
+//@ func withPacketBPFFilter$1
+//@   props C03
+//@   modifies c.bpfFilter
+//@   ensures c.bpfFilter == bpfFilter
+//@ func withPacketScanMethod$1
+//@   props C03
+//@   modifies c.scanMethod
+//@   ensures c.scanMethod == sm
+//@ func newEngineConfig
+//@   props C16
+//@   inline
+//@   observe o
+//@   entry row init:  [] when c.exitDelay == 300000000 -> loop 0
+//@   loop 0 row apply: [call o(c)] -> continue
+//@   loop 0 row done:  [] when ret == c -> exit
+
+// ARP scan method: generator stack = addresses of the subnet, then the exclusion filter iff exclusions were given,
+// then - outermost - the live re-scanner with the configured interval iff --live > 0 (C19, C02); the logger
+// de-duplicates iff live mode is on (C14)
+//@ func (*arpCmdOpts).newARPScanMethod
+//@   props C19 C02 C01 C03
+//@   opaque scan.NewIPGenerator, scan.NewIPRequestGenerator, scan.NewFilterIPRequestGenerator, scan.NewLiveRequestGenerator, arp.NewPacketFiller, scan.NewPacketMultiGenerator, scan.NewPacketSource, scan.NewResultChan, arp.NewScanMethod
+//@   entry row plain:    [call scan.NewIPGenerator() as (ig) ; call scan.NewIPRequestGenerator(ig) as (g) ; call arp.NewPacketFiller() as (pf) ; call scan.NewPacketMultiGenerator(_, _) as (pg) ; call scan.NewPacketSource(g, _) as (ps) ;
+//@                        call scan.NewResultChan(ctx, _) as (rc) ; call arp.NewScanMethod(ps, rc) as (m)] when o.excludeIPs == nil && o.liveTimeout <= 0 && ret == m -> exit
+//@   entry row filtered: [call scan.NewIPGenerator() as (ig) ; call scan.NewIPRequestGenerator(ig) as (g) ; call scan.NewFilterIPRequestGenerator(g, o.excludeIPs) as (g2) ; call arp.NewPacketFiller() as (pf) ;
+//@                        call scan.NewPacketMultiGenerator(_, _) as (pg) ; call scan.NewPacketSource(g2, _) as (ps) ; call scan.NewResultChan(ctx, _) as (rc) ; call arp.NewScanMethod(ps, rc) as (m)]
+//@                          when o.excludeIPs != nil && o.liveTimeout <= 0 && ret == m -> exit
+//@   entry row live:     [call scan.NewIPGenerator() as (ig) ; call scan.NewIPRequestGenerator(ig) as (g) ; call scan.NewLiveRequestGenerator(g, o.liveTimeout) as (g3) ; call arp.NewPacketFiller() as (pf) ;
+//@                        call scan.NewPacketMultiGenerator(_, _) as (pg) ; call scan.NewPacketSource(g3, _) as (ps) ; call scan.NewResultChan(ctx, _) as (rc) ; call arp.NewScanMethod(ps, rc) as (m)]
+//@                          when o.excludeIPs == nil && o.liveTimeout > 0 && ret == m -> exit
+//@   entry row livefilt: [call scan.NewIPGenerator() as (ig) ; call scan.NewIPRequestGenerator(ig) as (g) ; call scan.NewFilterIPRequestGenerator(g, o.excludeIPs) as (g2) ; call scan.NewLiveRequestGenerator(g2, o.liveTimeout) as (g3) ;
+//@                        call arp.NewPacketFiller() as (pf) ; call scan.NewPacketMultiGenerator(_, _) as (pg) ; call scan.NewPacketSource(g3, _) as (ps) ; call scan.NewResultChan(ctx, _) as (rc) ; call arp.NewScanMethod(ps, rc) as (m)]
+//@                          when o.excludeIPs != nil && o.liveTimeout > 0 && ret == m -> exit
+//@ func (*arpCmdOpts).getLogger
+//@   props C14 C19
+//@   opaque (*packetScanCmdOpts).getLogger, log.NewUniqueLogger
+//@   entry row fail:   [call getLogger(_, "arp", _) as (lg, e)] when e != nil && ret1 == e -> exit
+//@   entry row plain:  [call getLogger(_, "arp", _) as (lg, e)] when e == nil && o.liveTimeout <= 0 && ret0 == lg && ret1 == nil -> exit
+//@   entry row unique: [call getLogger(_, "arp", _) as (lg, e) ; call log.NewUniqueLogger(lg) as (u)] when e == nil && o.liveTimeout > 0 && isptr(ret0, log.UniqueLogger) && asptr(ret0, log.UniqueLogger) == u && ret1 == nil -> exit
+
+// target generator choice (C01): no address file -> subnet x ports; address file without port ranges -> file of
+// ip/port pairs; otherwise file of addresses x ports; the exclusion filter is outermost iff exclusions were given
+//@ func (*ipPortScanCmdOpts).newIPPortGenerator
+//@   props C01 C02 C13
+//@   opaque scan.NewIPGenerator, scan.NewPortGenerator, scan.NewIPPortGenerator, scan.NewFileIPPortGenerator, scan.NewFileIPGenerator, scan.NewFilterIPRequestGenerator
+//@   entry row subnet:  [call scan.NewIPGenerator() as (ig) ; call scan.NewPortGenerator() as (pg) ; call scan.NewIPPortGenerator(ig, pg) as (g)] when len(o.ipFile) == 0 && o.excludeIPs == nil && ret == g -> exit
+//@   entry row subnetx: [call scan.NewIPGenerator() as (ig) ; call scan.NewPortGenerator() as (pg) ; call scan.NewIPPortGenerator(ig, pg) as (g) ; call scan.NewFilterIPRequestGenerator(g, o.excludeIPs) as (f)] when len(o.ipFile) == 0 && o.excludeIPs != nil && ret == f -> exit
+//@   entry row pairs:   [call scan.NewFileIPPortGenerator(_) as (g)] when len(o.ipFile) != 0 && len(o.portRanges) == 0 && o.excludeIPs == nil && ret == g -> exit
+//@   entry row pairsx:  [call scan.NewFileIPPortGenerator(_) as (g) ; call scan.NewFilterIPRequestGenerator(g, o.excludeIPs) as (f)] when len(o.ipFile) != 0 && len(o.portRanges) == 0 && o.excludeIPs != nil && ret == f -> exit
+//@   entry row file:    [call scan.NewFileIPGenerator(_) as (ig) ; call scan.NewPortGenerator() as (pg) ; call scan.NewIPPortGenerator(ig, pg) as (g)] when len(o.ipFile) != 0 && len(o.portRanges) != 0 && o.excludeIPs == nil && ret == g -> exit
+//@   entry row filex:   [call scan.NewFileIPGenerator(_) as (ig) ; call scan.NewPortGenerator() as (pg) ; call scan.NewIPPortGenerator(ig, pg) as (g) ; call scan.NewFilterIPRequestGenerator(g, o.excludeIPs) as (f)] when len(o.ipFile) != 0 && len(o.portRanges) != 0 && o.excludeIPs != nil && ret == f -> exit
+
+// newSocksCmd$1: options, range and logger first; the engine built by newSOCKSScanEngine; startScanEngine gets that engine and a
+// configuration carrying this logger, this range and the --exit-delay flag
+//@ func newSocksCmd$1
+//@   props C16 C08 C09
+//@   observe startScanEngine
+//@   opaque (*genericScanCmdOpts).parseRawOptions, (*genericScanCmdOpts).parseScanRange, (*genericScanCmdOpts).getLogger, (*socksCmdOpts).newSOCKSScanEngine
+//@   entry row badraw: [call parseRawOptions(_) as (e)] when e != nil && ret == e -> exit
+//@   entry row badrange: [call parseRawOptions(_) as (e) ; call parseScanRange(_, args) as (r, e2)] when e == nil && e2 != nil && ret == e2 -> exit
+//@   entry row nolog:  [call parseRawOptions(_) as (e) ; call parseScanRange(_, args) as (r, e2) ; call getLogger(_, "socks", _) as (lg, e3)] when e == nil && e2 == nil && e3 != nil && ret == e3 -> exit
+//@   entry row scan:   [call parseRawOptions(_) as (e) ; call parseScanRange(_, args) as (r, e2) ; call getLogger(_, "socks", _) as (lg, e3) ; call newSOCKSScanEngine(_, _) as (en) ; call startScanEngine(_, en, bind_cfg) as (se)]
+//@                        when e == nil && e2 == nil && e3 == nil && ret == se
+//@                          && atcall(cfg, cfg.logger == lg && cfg.exitDelay == c.opts.exitDelay && cfg.scanRange.DstSubnet == r.DstSubnet && cfg.scanRange.Ports == r.Ports) -> exit
+
+// newDockerCmd$1: options, range and logger first; the engine built by newDockerScanEngine; startScanEngine gets that engine and a
+// configuration carrying this logger, this range and the --exit-delay flag
+//@ func newDockerCmd$1
+//@   props C16 C08 C10
+//@   observe startScanEngine
+//@   opaque (*dockerCmdOpts).parseRawOptions, (*genericScanCmdOpts).parseScanRange, (*genericScanCmdOpts).getLogger, (*dockerCmdOpts).newDockerScanEngine
+//@   entry row badraw: [call parseRawOptions(_) as (e)] when e != nil && ret == e -> exit
+//@   entry row badrange: [call parseRawOptions(_) as (e) ; call parseScanRange(_, args) as (r, e2)] when e == nil && e2 != nil && ret == e2 -> exit
+//@   entry row nolog:  [call parseRawOptions(_) as (e) ; call parseScanRange(_, args) as (r, e2) ; call getLogger(_, "docker", _) as (lg, e3)] when e == nil && e2 == nil && e3 != nil && ret == e3 -> exit
+//@   entry row scan:   [call parseRawOptions(_) as (e) ; call parseScanRange(_, args) as (r, e2) ; call getLogger(_, "docker", _) as (lg, e3) ; call newDockerScanEngine(_, _) as (en) ; call startScanEngine(_, en, bind_cfg) as (se)]
+//@                        when e == nil && e2 == nil && e3 == nil && ret == se
+//@                          && atcall(cfg, cfg.logger == lg && cfg.exitDelay == c.opts.exitDelay && cfg.scanRange.DstSubnet == r.DstSubnet && cfg.scanRange.Ports == r.Ports) -> exit
+
+// newElasticCmd$1: options, range and logger first; the engine built by newElasticScanEngine; startScanEngine gets that engine and a
+// configuration carrying this logger, this range and the --exit-delay flag
+//@ func newElasticCmd$1
+//@   props C16 C08 C10
+//@   observe startScanEngine
+//@   opaque (*elasticCmdOpts).parseRawOptions, (*genericScanCmdOpts).parseScanRange, (*genericScanCmdOpts).getLogger, (*elasticCmdOpts).newElasticScanEngine
+//@   entry row badraw: [call parseRawOptions(_) as (e)] when e != nil && ret == e -> exit
+//@   entry row badrange: [call parseRawOptions(_) as (e) ; call parseScanRange(_, args) as (r, e2)] when e == nil && e2 != nil && ret == e2 -> exit
+//@   entry row nolog:  [call parseRawOptions(_) as (e) ; call parseScanRange(_, args) as (r, e2) ; call getLogger(_, "elastic", _) as (lg, e3)] when e == nil && e2 == nil && e3 != nil && ret == e3 -> exit
+//@   entry row scan:   [call parseRawOptions(_) as (e) ; call parseScanRange(_, args) as (r, e2) ; call getLogger(_, "elastic", _) as (lg, e3) ; call newElasticScanEngine(_, _) as (en) ; call startScanEngine(_, en, bind_cfg) as (se)]
+//@                        when e == nil && e2 == nil && e3 == nil && ret == se
+//@                          && atcall(cfg, cfg.logger == lg && cfg.exitDelay == c.opts.exitDelay && cfg.scanRange.DstSubnet == r.DstSubnet && cfg.scanRange.Ports == r.Ports) -> exit
